@@ -867,10 +867,13 @@ class Collection(object):
                                     obj for obj in arr if obj not in value]
                             continue
                         else:
+                            # nothing to pull from when the path does not exist
                             subdocument, _ = self._get_subdocument(
-                                existing_document, spec, nested_field_list)
+                                existing_document, spec, nested_field_list,
+                                create_missing=False)
 
-                            if nested_field_list[-1] in subdocument:
+                            if subdocument is not None and \
+                                    nested_field_list[-1] in subdocument:
                                 arr = subdocument[nested_field_list[-1]]
                                 subdocument[nested_field_list[-1]] = [
                                     obj for obj in arr if obj not in value]
@@ -997,13 +1000,16 @@ class Collection(object):
             'updatedExisting': updated_existing,
         }
 
-    def _get_subdocument(self, existing_document, spec, nested_field_list):
+    def _get_subdocument(self, existing_document, spec, nested_field_list,
+                         create_missing=True):
         """This method retrieves the subdocument of the existing_document.nested_field_list.
 
         It uses the spec to filter through the items. It will continue to grab nested documents
         until it can go no further. It will then return the subdocument that was last saved.
         '$' is the positional operator, so we use the $elemMatch in the spec to find the right
         subdocument in the array.
+        Missing intermediate documents are created on the way, unless create_missing is False:
+        then (None, None) is returned when the path does not exist.
         """
         # Current document in view.
         doc = existing_document
@@ -1042,6 +1048,8 @@ class Collection(object):
 
             if not isinstance(parent_doc, list):
                 if subfield not in parent_doc:
+                    if not create_missing:
+                        return None, None
                     parent_doc[subfield] = {}
                 if is_following_spec and subfield not in subspec:
                     is_following_spec = False
